@@ -146,7 +146,7 @@ def float_table(ctx: Ctx, h: Harness, thorough: bool):
         extremes = {16: [5.960464477539063e-08, 65504.0, 0.333251953125], 32: [1.401298464324817e-45, 3.4028234663852886e+38, 0.10000000149011612],
                     64: [5e-324, 1.7976931348623157e+308, 0.1]}[size]
         for order, pre in (("mostSignificantByteFirst", ">"), ("leastSignificantByteFirst", "<")):
-            for encname in ("IEEE754", "IEEE754_1985"):
+            for encname in ("IEEE754", "IEEE754_1985", "IEEE-754"):      # the last is the tolerated non-XTCE spelling (warns)
                 site = f"{fi.key}::{encname} binary{size}::{order}"
                 bad = None
                 try:
@@ -187,7 +187,8 @@ def float_table(ctx: Ctx, h: Harness, thorough: bool):
         site = f"{fi.key}::MILSTD_1750A::{order}"
         bad = None
         try:
-            e = h.ev("FloatDataEncoding(32, encoding='MILSTD_1750A', byte_order=order)", ENC, order=order)
+            e = h.ev("FloatDataEncoding(32, encoding=name, byte_order=order)", ENC, order=order,
+                     name="MILSTD_1750A" if order.startswith("most") else "MIL-1750A")      # tolerated spelling on the second pass
             for v in vectors:
                 want = mil1750a(v)
                 fieldbytes = pack_bits(v)
@@ -209,6 +210,9 @@ def float_table(ctx: Ctx, h: Harness, thorough: bool):
                     break
         except Unsupported as e2:
             ctx.unknown("R4.float", site, str(e2))
+            continue
+        except Raised as r:
+            ctx.refuted("R4.float", site, f"a MIL-STD-1750A encoding ({order}) cannot be constructed after the earlier ones: {r.exc.tname} {r.exc.args}")
             continue
         ctx.decide(bad is None, "R4.float", site, "", bad or "", where=where(fi, fi.node))
     ctx.stats["float_cases"] = n
@@ -358,7 +362,7 @@ SPEC = PropSpec(
     pid="C04",
     title="Integer and float fields decode correctly at every size, offset and byte order",
     check=check,
-    floors={"R4.int": 6, "R4.float": 14, "R4.tab": 4, "R4.xml": 9, "R4.cls": 12, "R4.pure": 3},
+    floors={"R4.int": 6, "R4.float": 20, "R4.tab": 4, "R4.xml": 9, "R4.cls": 12, "R4.pure": 3},
     fallback={"R4.tab": ("R4.float",)},
     explanation=("Decision tables by abstract interpretation of the numeric decoders against the checker's reference: "
                  "integers for 18 widths (thorough: every width 1..65 plus 72/96/128) x three encodings x both byte "
